@@ -338,9 +338,11 @@ Proof.
   set (s1 := match c with CTermGW _ | CIngressGW _ => _ | _ => s end) in He.
   assert (H1 : same_base s1 s) by (subst s1; destruct c; try apply same_base_refl; apply same_core_base, update_gateway_services_core).
   clearbody s1.
-  set (s2 := match c with CDefaults true => _ | _ => s1 end) in He.
+  set (s2 := match c with CDefaults true => _ | CDefaults false => _ | _ => s1 end) in He.
   assert (H2 : same_base s2 s).
   { subst s2. destruct c as [| |[]|]; try exact H1.
+    2:{ destruct (bool_decide _); [|exact H1]. cbv zeta.
+        eapply same_base_trans; [apply same_core_base, drop_destination_core|exact H1]. }
     eapply same_base_trans; [apply same_core_base, upsert_ksn_core|].
     eapply same_base_trans; [apply same_core_base, check_gateway_and_update_core|].
     eapply same_base_trans; [apply same_core_base, check_gateway_wildcards_and_update_core|exact H1]. }
